@@ -259,7 +259,7 @@ namespace cds { namespace algo {
             if ( eos())
                 return 0;
 
-            unsigned const rest = static_cast<unsigned>( last_ - cur_ - 1 ) * c_nBitPerByte;
+            unsigned const rest = static_cast<unsigned>( last_ - cur_ ) * c_nBitPerByte;
             if ( rest < count )
                 count = rest;
             return count ? cut( count ) : 0;
